@@ -102,8 +102,29 @@ func splitStruct(v value, sep string, n int) ([]value, bool) {
 		return nil, false
 	}
 	ps, ok := structOf(v)
-	if !ok || !onlyIntPieces(ps) || !cannotOccurInInt(sep) || n == 0 {
+	if !ok || n == 0 || sep == "" {
 		return nil, false
+	}
+	for _, p := range ps {
+		if !p.sym {
+			continue
+		}
+		if p.it != "" {
+			if !cannotOccurInInt(sep) {
+				return nil, false
+			}
+			continue
+		}
+		// an arbitrary symbolic piece is atomic for the split only if it provably cannot contain
+		// (or, with its neighbours, complete) the separator: ask the solver under the path condition
+		if len(sep) != 1 {
+			return nil, false
+		}
+		r := X.sol.check(X.pc, "(str.contains "+p.s+" "+smtStrLit(sep)+")")
+		X.sol.popQuery()
+		if r != "unsat" {
+			return nil, false
+		}
 	}
 	var parts [][]piece
 	cur := []piece{}
